@@ -291,6 +291,16 @@ func ruleC02(r *Report) {
 	// the windows are windows over the instants the texts denote: the parse obligations of C15.ms, borrowed
 	r.Rule("C02.instants", "every instant a window is computed from is the instant its text denotes: each parse arm of RelaxedTime stores Round(Millisecond) of what time.Parse returned under err == nil, zone-less text is read as UTC, the layouts read any fraction (C15.ms, borrowed)", 3)
 	r.borrow("C15.ms", "C02.instants", func() { checkRelaxedTime(r, p) })
+	// ... and the decoders of the messages supply no instant of their own
+	safely(r, func() {
+		checkDecodersPure(r, p, "C02.instants", func(tn string) bool {
+			switch tn {
+			case "Response", "Assertion", "Conditions", "SubjectConfirmationData", "AuthnStatement", "ArtifactResponse":
+				return true
+			}
+			return false
+		})
+	})
 }
 
 // checkReturned: C02.returned (also used by C01).
@@ -1059,6 +1069,9 @@ func ruleC04(r *Report) {
 	// ... and each of them was decoded without error from a cookie named after its signed index (C17.tracker, borrowed):
 	// an undecodable cookie listed as a zero TrackedRequest puts the empty ID on the outstanding list
 	r.borrow("C17.tracker", "C04.middleware", func() { checkTracker(r, p, "C17.tracker") })
+	// ... and "unless IdP-initiated login is enabled" is the application's own choice: the SP's flag is the option
+	// itself (C17.ids, configuration part), not an option that is switched on by another setting
+	safely(r, func() { checkIDPInitiatedDefault(r, p, "C04.middleware") })
 }
 
 // checkIDsForwarded: inside the root package the set of outstanding request IDs is the caller's: wherever a function on
